@@ -4,6 +4,7 @@
 From TM Require ModifierSpec SpecTables.
 From TMGen Require Modifiers.
 From TM Require Loop LoopSpec LoopDevice LoopDeviceLemmas.
+From TM Require MonitorsSilent.
 From TM Require Import Base Mapper Monitors Trace MapperInv MapperProps MapperFire MapperNoAbs
                        MapperProv MapperForeign MapperEmpty MapperStay.
 
@@ -87,6 +88,46 @@ Proof.
   intros a L h e m t H1 H2. apply outputs_stay; [apply for_layout_ok_wf; exact H1 | apply has_absorbing_noabs; exact H2].
 Qed.
 Print Assumptions C05_in_effect_outputs_stay.
+
+(* The extracted step checker Monitors.check_step (applied by the mapper engine
+   to the outputs of the REAL mapper on every explored transition: specification
+   state before and after, keys physically held and keys held on the virtual
+   keyboard before the step, the input, the observed events) states the theorems
+   above on one observed step: K_C05_foreign (the physical press of a foreign key
+   that is not physically held does not produce exactly one press of it; or an
+   event of a foreign key x occurs that is a press and the input is not the
+   press of x with x not physically held, or a release and the input is neither
+   the release of x, nor a release-all, nor - x a non-modifier - a press that
+   fires a Disabled/Special mapping; or a foreign key is held after its
+   release), K_C05_empty (empty layout: the events are not the echo of the
+   input), K_C05_scope (at the release of k, a released key is neither k nor an
+   output of a mapping with k in its trigger, or a mapping in effect after the
+   step outputs it), K_C05_stay (layouts without absorbing mappings, the class
+   of that theorem: a protected output key of a mapping in effect before and
+   after the step is released); reported as C05.foreign, C05.empty, C05.scope,
+   C05.stay.  It never fires on the model: for EVERY classification, EVERY
+   accepted layout, EVERY history h and EVERY next input i, applied to the
+   model's own events for i it returns no clause at all, in particular none of
+   these four.  Runs on which these clauses fire:
+   MonitorsSilent.check_step_fires_every_clause. *)
+Theorem C05_checkers_silent_on_model :
+  forall (is_action : key -> bool) (L : layout) (h : list input) (i : input),
+    for_layout_ok L = true ->
+    let chk := check_step is_action L (state_of is_action L h) (state_of is_action L (h ++ [i]))
+                 (phys_of h) (held_all is_action L h) i
+                 (fst (fst (mstep is_action L (state_of is_action L h) i))) in
+    chk = [] /\ ~ In K_C05_foreign chk /\ ~ In K_C05_empty chk /\ ~ In K_C05_scope chk /\ ~ In K_C05_stay chk.
+Proof.
+  intros a L h i H. cbn zeta.
+  assert (Hwf : wf_layout L) by (apply for_layout_ok_wf; exact H).
+  repeat split.
+  - apply MonitorsSilent.check_step_silent. exact Hwf.
+  - apply MonitorsSilent.check_step_clause_silent. exact Hwf.
+  - apply MonitorsSilent.check_step_clause_silent. exact Hwf.
+  - apply MonitorsSilent.check_step_clause_silent. exact Hwf.
+  - apply MonitorsSilent.check_step_clause_silent. exact Hwf.
+Qed.
+Print Assumptions C05_checkers_silent_on_model.
 
 (* At the device.  The theorems above are about the events the mapper returns.
    The event loop adds writes of its own (the custom-repeat chords) and decides
